@@ -445,4 +445,83 @@ theorem orTables_rejected :
       .union (.cmp .lt (.var 0) (.var 1)) (.cmp .gt (.var 1) (.var 0)) := by
   refine ⟨by decide, by decide, by decide, by decide⟩
 
+/-! ### `== ↔ !=` on flatten-free operands (partial: the rule level, not lifted to `buildWith`) -/
+
+theorem applyCmp_ne_eq (w : World) (a b : Val) :
+    applyCmp w .ne a b = (do pure (!(← applyCmp w .eq a b))) := by
+  cases a <;> cases b <;> rfl
+
+theorem applyCmp_eq_ne (w : World) (a b : Val) :
+    applyCmp w .eq a b = (do pure (!(← applyCmp w .ne a b))) := by
+  cases a <;> cases b <;> simp [applyCmp, bind, Except.bind, pure, Except.pure]
+
+theorem anyM_singleton {α} (x : α) (f : α → Except Err Bool) : anyM [x] f = f x := by
+  simp only [anyM]
+  cases f x with
+  | error e => rfl
+  | ok a => cases a <;> rfl
+
+theorem satE_cmp_noFlat (w : World) (σ : Asg) (op : CmpOp) (l r : Term)
+    (hl : l.noFlat = true) (hr : r.noFlat = true) :
+    satE w (.cmp op l r) σ = (do let a ← tval w σ l; let b ← tval w σ r; applyCmp w op a b) := by
+  simp only [satE, tvals_noFlat w σ l hl, tvals_noFlat w σ r hr]
+  cases tval w σ l with
+  | error e => rfl
+  | ok a =>
+    cases tval w σ r with
+    | error e => rfl
+    | ok b =>
+      show anyM [a] (fun a => anyM [b] fun b => applyCmp w op a b) = applyCmp w op a b
+      rw [anyM_singleton, anyM_singleton]
+
+/-- the Comparator rule that also accepts `== ↦ !=` and `!= ↦ ==` -/
+def okComparatorNF : InvRule → Bool
+  | .wrapNot => true
+  | .opTable tbl => tbl.all fun p =>
+      p.1 == .notContains || p == (.contains, .notContains) || p == (.cmp .eq, .cmp .ne) || p == (.cmp .ne, .cmp .eq)
+  | _ => false
+
+/-- **satE_invComparatorWith_noFlat_partial.** On flatten-free operands a `Comparator._invert_` that replaces `==` by `!=`
+and `!=` by `==` (and nothing else) negates. PARTIAL: stated for the rule, not lifted to `buildWith`; the full statement
+would be `RewritesOkNF t = true → e flatten-free → satE w (buildWith t e) σ = satS w e σ` with `okComparatorNF` in place of
+`okComparator` — missing: `satE_invertWith` / `satE_buildWith` re-proved under the flatten-free hypothesis. -/
+theorem satE_invComparatorWith_noFlat_partial (w : World) {rule : InvRule} (h : okComparatorNF rule = true)
+    (op : CmpOp) (l r : Term) (hl : l.noFlat = true) (hr : r.noFlat = true) (σ : Asg) :
+    satE w (invComparatorWith rule (.cmp op) l r) σ = (do pure (!(← satE w (.cmp op l r) σ))) := by
+  cases rule with
+  | opTable tbl =>
+    simp only [invComparatorWith]
+    split
+    · rename_i k' hlk
+      have hm := lookup_mem hlk
+      simp only [okComparatorNF, List.all_eq_true] at h
+      have := h _ hm
+      simp only [Bool.or_eq_true, beq_iff_eq, Prod.mk.injEq, OpK.cmp.injEq] at this
+      rcases this with ((h1 | ⟨h1, _⟩) | ⟨h1, h2⟩) | ⟨h1, h2⟩
+      · cases h1
+      · cases h1
+      · subst h1 h2
+        simp only [OpK.mk, satE_cmp_noFlat w σ _ l r hl hr, applyCmp_ne_eq]
+        cases tval w σ l with
+        | error e => rfl
+        | ok a => cases tval w σ r <;> rfl
+      · subst h1 h2
+        simp only [OpK.mk, satE_cmp_noFlat w σ _ l r hl hr]
+        cases tval w σ l with
+        | error e => rfl
+        | ok a =>
+          cases tval w σ r with
+          | error e => rfl
+          | ok b => exact applyCmp_eq_ne w a b
+    · simp only [OpK.mk, satE]
+  | wrapNot => simp only [invComparatorWith, OpK.mk, satE]
+  | operand _ => simp [okComparatorNF] at h
+  | bin _ _ _ => simp [okComparatorNF] at h
+  | quant _ _ => simp [okComparatorNF] at h
+
+/-- non-vacuity: the `==`/`!=` part of the seeded complementary-operator table passes, and the hypothesis is needed
+(`complementTable_rejected`: with a flattened operand the meaning changes) -/
+example : okComparatorNF (.opTable [(.cmp .eq, .cmp .ne), (.cmp .ne, .cmp .eq), (.contains, .notContains)]) = true := by
+  decide
+
 end KrroodVerif.Eql
